@@ -44,6 +44,9 @@ func Program(t *rapid.T, maxDepth int) string {
 			specs = append(specs, fmt.Sprintf("%q", p.path))
 		}
 	}
+	if g.dot && regexp.MustCompile(`(^|[^\pL\pN_.])(`+strings.Join(dotSyms, "|")+`)($|[^\pL\pN_])`).MatchString(body) {
+		specs = append(specs, `. "math"`)
+	}
 	if rapid.IntRange(0, 5).Draw(t, "anon") == 0 {
 		specs = append(specs, `_ "embed"`)
 	}
@@ -91,6 +94,7 @@ type pg struct {
 	// composite literal of an instantiated generic type is not produced there (known finding
 	// KF1: gofmt strips the parentheses that protect it); Excluded counts the avoided draws.
 	header int
+	dot    bool // a name of the dot-imported package was drawn
 }
 
 // ExcludedKnown counts, process-wide, how often Program steered away from the class of KF1.
@@ -119,7 +123,14 @@ func (g *pg) arity(label string) int {
 	return g.n(label, 9, 12)
 }
 
+// dotSyms are names of package math, referred to bare through `import . "math"`; no other production uses them.
+var dotSyms = []string{"Pi", "Sqrt", "MaxInt8", "Inf"}
+
 func (g *pg) qual(typ bool) string {
+	if !typ && g.n("dotimported", 0, 7) == 0 {
+		g.dot = true
+		return g.pick("dotsym", dotSyms)
+	}
 	n := g.pick("pkg", pkgNames)
 	p := pkgs[n]
 	g.used[n] = true
@@ -133,7 +144,9 @@ func (g *pg) qual(typ bool) string {
 
 var intLits = []string{"0", "1", "7", "42", "255", "1_000", "0x7f", "0XFF", "0o17", "017", "0b1011", "9223372036854775807", "9223372036854775808", "18446744073709551615", "340282366920938463463374607431768211456", "0x1p4", "00"}
 var floatLits = []string{"0.0", "1.5", "3.14159", "1e6", "1e-7", "1E+21", "2.5e-3", ".5", "5.", "1_0.2_5", "0x1.8p1", "1e400", "123456789.123456789123456789", "0.1", "1e21", "1e20", "4.9e-324", "1.7976931348623157e308", "0.000001", "100000.0"}
-var imagLits = []string{"1i", "2.5i", "0i", "1e3i", "0x10i"}
+var imagLits = []string{"1i", "2.5i", "0i", "1e3i", "0x10i",
+	// complex constants the way fmt writes them (the translator may build these through Lit(complex128))
+	"(1 + 2i)", "(0.5 - 0.25i)", "(1 + 3.141592653589793i)", "(0.1 + 0.30000000000000004i)", "(2 - 1.6777217e+07i)", "(0 + 1e+300i)", "(3 + 5e-324i)", "(1.7976931348623157e+308 + 0.3333333333333333i)", "(1e+06 - 1e-07i)"}
 var charLits = []string{"'a'", "'\\n'", "'\\''", "'\\\\'", "'\\x41'", "'\\u00e9'", "'\\U0001F600'", "'日'", "'\\000'", "'\"'", "'\\t'", "'`'"}
 var strLits = []string{`""`, `"a"`, `"hello, world"`, `"q\"uote"`, `"new\nline"`, `"\x00\xff"`, `"\u00e9\U0001F600"`, "`raw`", "`multi\nline`", "`back\\slash \"q\"`", `"tab\there"`, `"/* not a comment */"`, `"// nor this"`, "``", `"日本語"`, `"\\"`, `"%d %s"`, `"{}"`}
 
